@@ -36,7 +36,11 @@ def main():
         with open(a.path) as f:
             v = json.load(f)
         mod = importlib.import_module(v["module"])
-        ok = mod.replay(v)
+        if v.get("query") == "internal-error":
+            from . import common
+            ok = common.replay_internal_error(mod, v)
+        else:
+            ok = mod.replay(v)
         print(("REPRODUCED " if ok else "NOT REPRODUCED ") + f"property={v['property']} {v['what']}")
         sys.exit(1 if ok else 0)
 
